@@ -364,6 +364,11 @@ func emitCase(sb *strings.Builder, c *Case, p *pool, endlessTake int) {
 		src := "s"
 		if c.Src.K == "range" {
 			src = rng
+			if c.ID%2 == 1 {
+				// the range as a value: `for x in rv` is lowered by another compiler path than the literal
+				w("rv := %s", rng)
+				src = "rv"
+			}
 		}
 		limit := 0
 		if c.Src.K == "range" && !hasHi(c.Src.Rk) {
